@@ -3,6 +3,7 @@ obligations, discharges them with z3 (cvc5 on unknown), replays counter-models n
 from __future__ import annotations
 
 import io
+import os
 import time
 import traceback
 import z3
@@ -49,6 +50,18 @@ def discharge(ob: Obligation, facts=None):
     ob.backend = "z3"
     if r == z3.unsat:
         ob.status = "discharged"
+        if os.environ.get("VERIF_TIER") == "thorough" and not os.environ.get("KVC_NO_CROSS"):
+            # thorough tier: second opinion on every discharged obligation
+            try:
+                r2 = cvc5_check(s)
+                ob.info["cvc5"] = r2
+                if r2 == "unsat":
+                    ob.backend = "z3+cvc5"
+                elif r2 == "sat":
+                    ob.status = "undecided"
+                    ob.info["solver"] = "z3 says unsat, cvc5 says sat"
+            except Exception as ex:       # noqa: BLE001
+                ob.info["cvc5"] = repr(ex)[:200]
     elif r == z3.sat:
         ob.status = "refuted"
         ob.model = s.model()
